@@ -1,13 +1,16 @@
 """C02 - RIBs hold exactly the latest un-withdrawn route per source and path-id."""
 from speaker_common import run_speaker
+from c02ap import run_ap, RULE as AP_RULE, ASSUMPTIONS as AP_ASSUMPTIONS
 
 
 def main(run):
     run_speaker(run, ["C02_AdjInExact", "C02_LocRibExact", "C02_Counters", "C02_BestStream", "C02_Lookups"], collide=True)
+    run_ap(run)        # groups "aprx-*": ADD-PATH receive (AdjInAp.tla)
 
 
 RULE = ("same schedules and executions as C01 (SpeakerGen.tla on the real BgpServer); after every step TLC "
         "compares the white-box Adj-RIB-In of every neighbour (with rejected flags), the global table listing "
         "(best first) and the ListPeer received/accepted counters with AdjInExpected / LocRibExpected. "
-        "non-trivial = distinct states with an established neighbour and a prefix with >= 2 candidates")
-ASSUMPTIONS = ["hash-colliding destinations are provoked through the build-tag hook VerifKeyHook (key = hash mod 1), not with real colliding prefixes", "ADD-PATH receive is not covered by this check yet"]
+        "non-trivial = distinct states with an established neighbour and a prefix with >= 2 candidates | " + AP_RULE)
+ASSUMPTIONS = ["hash-colliding destinations are provoked through the build-tag hook VerifKeyHook (key = hash mod 1), "
+               "not with real colliding prefixes"] + AP_ASSUMPTIONS
